@@ -236,6 +236,42 @@ impl Runner {
                 }
                 let v = small(&mut self.rng, b.min(r[k].max(40))).max(2);
                 let declared = if variant == 7 || self.rng.chance(15, 100) { 0 } else { v };
+                if self.rng.chance(25, 100) {
+                    // the declared amount is attached, but in another denom (look-alikes first)
+                    let lower = denom.to_lowercase();
+                    let mut cands: Vec<String> = self
+                        .sim
+                        .model
+                        .denoms
+                        .iter()
+                        .filter(|d| **d != denom && (d.to_lowercase() == lower || d.starts_with(denom.as_str()) || denom.starts_with(d.as_str())))
+                        .cloned()
+                        .collect();
+                    if cands.is_empty() {
+                        cands = self.sim.model.denoms.iter().filter(|d| **d != denom).cloned().collect();
+                    }
+                    if !cands.is_empty() {
+                        let other = self.rng.pick(&cands).clone();
+                        let bo = self.bal(&crate::ledger::native_key(&other), &who);
+                        if bo > 0 {
+                            let amt = v.min(bo);
+                            self.cov.fault("F5_declared_amount_in_other_denom");
+                            return Some(Proto {
+                                sender,
+                                pre: vec![],
+                                op: Op::SwapExec {
+                                    pair: i,
+                                    offer: AssetAmt { asset: p.refs[k].clone(), amount: u(amt) },
+                                    funds: vec![Fund { denom: other, amount: u(amt) }],
+                                    belief: None,
+                                    max_spread: None,
+                                    to,
+                                },
+                                note: "adversary substitute-denom".into(),
+                            });
+                        }
+                    }
+                }
                 let attached = match self.rng.weighted(&[16, 18, 14, 18, 18, 16]) {
                     0 => 0,
                     1 => v - 1,
@@ -335,9 +371,28 @@ impl Runner {
                             }
                         }
                         1 => {
-                            // drop a declared native coin
+                            // drop a declared native coin, or attach its amount in another denom
                             if !funds.is_empty() {
-                                funds.remove(0);
+                                let f = funds.remove(0);
+                                if self.rng.chance(50, 100) {
+                                    let lower = f.denom.to_lowercase();
+                                    let mut cands: Vec<String> = self
+                                        .sim
+                                        .model
+                                        .denoms
+                                        .iter()
+                                        .filter(|d| **d != f.denom && !funds.iter().any(|x| x.denom == **d))
+                                        .cloned()
+                                        .collect();
+                                    cands.sort_by_key(|d| if d.to_lowercase() == lower { 0 } else { 1 });
+                                    if let Some(other) = cands.first() {
+                                        let bo = self.bal(&crate::ledger::native_key(other), &who);
+                                        if bo >= f.amount.u128() {
+                                            funds.push(Fund { denom: other.clone(), amount: f.amount });
+                                            funds.sort_by(|a, b| a.denom.cmp(&b.denom));
+                                        }
+                                    }
+                                }
                             }
                         }
                         2 => {
